@@ -7,8 +7,22 @@ from harness.tie_explicit import rlock_alpha
 from harness.nir_split import SplitTarget
 
 PID = "C39"
-ASSUMPTIONS = []
-TIE_IMPORTS = "From LunaModel Require Import Crc HdrRx HdrRx_proofs PktTx.\n"
+ASSUMPTIONS = [
+    "scope: enable stays high (link in U0); partner link commands are observed as the decoded events (new_command, command, subtype) of LinkCommandDetector "
+    "(its decoding is C35's subject), in any order and with any subtypes; header-queue and raw-transmitter timing are free",
+    "partner's side (monitor returns None = vacuous from the first violation on): it never advertises more credits than it has buffers "
+    "(unused credits + unacknowledged headers < n when an in-order LCRD arrives) and it acknowledges only headers transmitted since its last LBAD",
+    "RawPacketTransmitter is abstracted to: idle -> latches `header` in the first cycle `generate` is high -> busy -> raises `done` in one later cycle "
+    "(its wire format is C36's subject); 'transmits a header' = that latch event",
+    "after an LBAD every transmission carries DL until the backlog is drained, including headers accepted meanwhile (the property text allows that); "
+    "a transmission already on its way when the LBAD arrives is not counted as one of the retransmissions",
+    "sequence numbers: sw <= 3 (the header field has 3 bits); buffer count n = 2^pw; the 5 ms credit timer is modelled (recovery_required) but only "
+    "'mismatch => recovery_required' is part of the specification",
+    "R ties: PacketTransmitter's own elaborate() with buffer_count 1 (quick) / 1, 2 (thorough), SEQUENCE_NUMBER_WIDTH via subclass attribute, 5-bit headers "
+    "(payload bit, sequence_number, delayed), stub detector (free inputs) and the two-state raw-transmitter abstraction; explicit input alphabet (see stub_alphabet). "
+    "The unmodified PacketTransmitter(4) with real detector / raw transmitter (headers without payload): correspondence + specification oracle on closed-loop simulator traces",
+]
+TIE_IMPORTS = "From LunaModel Require Import Crc HdrRx HdrRx_proofs PktTx PktTx_proofs.\n"
 
 _LOCK = threading.RLock()
 LGOOD, LCRD, LRTY, LBAD, LGO_U = 0, 1, 2, 3, 4
@@ -340,6 +354,13 @@ def obligations(targets, tier):
                                     describe=f"PacketTransmitter bookkeeping (buffer_count={a['n']}, seq width {a['sw']}, stub detector / raw transmitter) "
                                              f"satisfies the specification tp_mon on every trace over the explicit alphabet (enable high; queue.valid, payload bit, "
                                              f"lrty_pending, finish free; partner events none / LGOOD s / LCRD k / LBAD / LRTY)"))
+            if a["n"] <= 2:
+                W = 6
+                obs.append(tie.rmon(f"lk_{t.name}", t,
+                                    mon=f"(rl_mon ptx (ptx_mstep {a['full']}) (ptx_enc {W}) (ptx_dec {W} {a['n']}) (fun _ _ => true))",
+                                    m0=f"(ptx_enc {W} (ptx_init {a['n']} {a['sw']}))", alpha_bits=0, alphabet=alph, fuel=1000000,
+                                    describe="regenerated netlist == packed bookkeeping model (every output, every cycle) on every trace over the same alphabet, "
+                                             "whether or not the partner keeps its rules"))
             obs.append(tie.cmon(f"spec_{t.name}", t, mon=spec, m0=f"(tp_enc {W_SPEC} tp_init)",
                                 describe="specification tp_mon as oracle over closed-loop simulator traces"))
             obs.append(tie.corr(f"corr_{t.name}", t, mstep=f"ptx_mstep {a['full']}", m0=f"ptx_init {a['n']} {a['sw']}",
@@ -362,6 +383,23 @@ def tie_theorem_names(targets, tier):
     return []
 
 
-LEVEL_TEXT = "in progress"
-LEVEL_NOTE = "in progress"
-TECHNIQUE = "in progress"
+LEVEL_TEXT = (
+    "Machine-checked proof (Rocq) about the corrected behaviour, plus four confirmed defects of the code as found. C39_bookkeeping_meets_spec: for every buffer count "
+    "n = 2^pw, sequence width sw <= 3, timeout, field positions and EVERY input trace (partner command events in any order incl. mismatching / premature ones, header-queue timing, "
+    "raw-transmitter latency) the PacketTransmitter bookkeeping model is accepted by the specification tp_mon: queue.ready iff bring-up done and an in-order-advertised credit is unused; "
+    "headers numbered consecutively from the advertised number + 1; a header is retired only by an LGOOD carrying the oldest unacknowledged header's number, any other LGOOD / out-of-order LCRD "
+    "raises recovery_required; every transmission presents the next unsent unacknowledged header in order; after an LBAD the send position returns to the oldest unacknowledged header and "
+    "all transmissions carry DL until the backlog is drained; packets_to_send / credits_available are exact (simulation relation model <-> list-based specification, induction over the trace). "
+    "Ties: the netlist regenerated from /repo (shrunk configuration) satisfies tp_mon and equals the packed model on all traces over an explicit alphabet (certified product reachability); "
+    "the unmodified PacketTransmitter(4) is compared with the composed model and checked by tp_mon on closed-loop simulator traces. On the UNCHANGED tree the ties fail with replayed "
+    "counterexamples (findings/C39-*.json: LGOOD with nothing outstanding retires; LBAD during a retransmission skips a header; header accepted in the LBAD cycle is never scheduled; "
+    "a send dispatched in the LBAD cycle goes out without DL); the check passes with findings/C39-retry-bookkeeping-corner-cases.diff.")
+LEVEL_NOTE = (
+    "The delivered model is the corrected behaviour (patched gateware); ./check C39 exits 1 (VIOLATION, confirmed on the simulator) on the tree as found and 0 with the patch. Safety only "
+    "(no claim that every accepted header is eventually transmitted). Disable / re-enable of the transmitter is out of scope (enable high is an assumption of the monitor). "
+    "No typed lock-step theorem for C39 (the packed-model lock-step is an R-monitor statement about the packed machine ptx_enc/ptx_dec; dec_enc is not proved), so netlist |= tp_mon is "
+    "established directly on the netlist for the tied configurations and on the parametric model separately. Real configuration (n = 4, 128-bit headers, real detector / raw transmitter, "
+    "no payloads) by correspondence + runtime oracle only.")
+TECHNIQUE = ("Rocq proof: simulation relation between a code-shaped parametric model (ring pointers, counters, 3-state dispatcher) and a list-based specification monitor; "
+             "certified product-reachability of the specification monitor and of a packed lock-step model against the regenerated netlist; closed-loop simulator traces; "
+             "counterexample search replayed on Amaranth's simulator")
